@@ -257,6 +257,9 @@ func (w *c20World) ensure(first bool) error {
 	if first {
 		put("/fzv/v1", c20Data(7))
 		put("/fzv/v2", c20Data(8))
+		// two "directories" that sort in front of the plain keys (listings with a delimiter and a small page)
+		put("/fzv/adir/one", c20Data(2))
+		put("/fzv/bdir/two", c20Data(2))
 	}
 	r1 := put("/fzv/v1", c20Data(9))
 	if v := r1.Headers.Get("x-amz-version-id"); v != "" {
@@ -756,6 +759,10 @@ func c20Corpus() []c20Case {
 		mk("CompleteMultipartUpload", "no-parts", c20Mut{K: "body", N: "root-only", V: []byte(`<CompleteMultipartUpload></CompleteMultipartUpload>`)}),
 		mk("CopyObject", "empty-source", c20Mut{K: "h", N: "x-amz-copy-source", V: []byte("/")}),
 		mk("GetObject", "path-no-slash", c20Mut{K: "path", V: []byte("fzb")}),
+		mk("ListObjectVersions", "delimiter-page-filled-by-prefixes", c20Mut{K: "q", N: "prefix", V: []byte("")}, c20Mut{K: "q", N: "key-marker", V: []byte("")},
+			c20Mut{K: "q", N: "version-id-marker", V: []byte("")}, c20Mut{K: "q", N: "max-keys", V: []byte("1")}),
+		mk("ListObjectsV2", "delimiter-page-filled-by-prefixes", c20Mut{K: "path", V: []byte("/fzv")}, c20Mut{K: "q", N: "prefix", V: []byte("")}, c20Mut{K: "q", N: "start-after", V: []byte("")},
+			c20Mut{K: "q", N: "continuation-token", V: []byte("")}, c20Mut{K: "q", N: "max-keys", V: []byte("1")}),
 		// seeded regressions the first version of the check missed
 		mk("HeadObjectPlain", "head-of-delete-marker", c20Mut{K: "path", V: []byte("/fzv/dm")}),
 		mk("HeadObjectPlain", "head-of-delete-marker-by-id", c20Mut{K: "path", V: []byte("/fzv/dm")}, c20Mut{K: "q+", N: "versionId", V: []byte("{dm.marker}")}),
